@@ -2,6 +2,7 @@ import Bmc.Proofs.C06
 import Bmc.Proofs.GenEnc.TranslatedOk
 import Bmc.Proofs.GenEnc.GetSensorReadingReq
 import Bmc.Proofs.GenEnc.GetDCMICapabilitiesInfoReq
+import Bmc.Proofs.GenEnc.GetDCMISensorInfoReq
 import Bmc.Proofs.GenEnc.ChassisControlReq
 import Bmc.Proofs.GenEnc.CloseSessionReq
 import Bmc.Proofs.GenEnc.GetChannelAuthenticationCapabilitiesReq
@@ -48,6 +49,7 @@ import Bmc.Proofs.GenEnc.V2Session
 #print axioms Bmc.Proofs.GenEnc.uninterpreted_ok
 #print axioms Bmc.Proofs.GenEnc.GetSensorReadingReq_enc_eq
 #print axioms Bmc.Proofs.GenEnc.GetDCMICapabilitiesInfoReq_enc_eq
+#print axioms Bmc.Proofs.GenEnc.GetDCMISensorInfoReq_enc_eq
 #print axioms Bmc.Proofs.GenEnc.ChassisControlReq_enc_eq
 #print axioms Bmc.Proofs.GenEnc.CloseSessionReq_enc_eq
 #print axioms Bmc.Proofs.GenEnc.GetChannelAuthenticationCapabilitiesReq_enc_eq
